@@ -21,6 +21,10 @@ func genC05(t *rapid.T, tier string) HistCase {
 }
 
 func runC05(c HistCase, o *run.Obs) error {
+	if c.Raw != nil {
+		o.Label("raw-entries")
+		return rawRoundTrip(*c.Raw)
+	}
 	reloadsAtHeight := 0
 	m, err := runHist(c, o, 2, func(w *core.World, m *core.Machine) {
 		m.OnPersist = func(si int, t *core.Tree, sr *core.SavedRoot) error {
